@@ -424,16 +424,33 @@ def _r20_5(prog: Program, res: Result) -> None:
         return
     loop = loops[0]
     it = loop.iter
-    keepends = isinstance(it, ast.Call) and isinstance(it.func, ast.Attribute) and it.func.attr == "splitlines" \
+    # the lines: every character of the text in exactly one line, terminators kept (so that offsets advance by len(line)),
+    # and a LINE is what the tokenizer calls a line - str.splitlines also splits at form feed, \x1c-\x1e, \x85, \u2028, \u2029,
+    # which can stand inside a string literal of the line: the comment at its end would then belong to the last piece only
+    splitlines_keepends = isinstance(it, ast.Call) and isinstance(it.func, ast.Attribute) and it.func.attr == "splitlines" \
         and isinstance(it.func.value, ast.Name) and it.func.value.id == src \
-        and any((k.arg == "keepends" and isinstance(k.value, ast.Constant) and k.value.value is True) for k in it.keywords) \
-        or (isinstance(it, ast.Call) and isinstance(it.func, ast.Attribute) and it.func.attr == "splitlines" and it.args
-            and isinstance(it.args[0], ast.Constant) and it.args[0].value is True)
+        and (any((k.arg == "keepends" and isinstance(k.value, ast.Constant) and k.value.value is True) for k in it.keywords)
+             or (it.args and isinstance(it.args[0], ast.Constant) and it.args[0].value is True))
+    tokenizer_lines = False
+    if isinstance(it, ast.Call) and it.args and isinstance(it.args[0], ast.Name) and it.args[0].id == src:
+        r_ = prog.resolve_call(it.func, fn.mod, fn)
+        if r_ and r_[0] == "fn":
+            # a splitter that keeps the terminators and splits at \r\n, \r, \n only: re.findall of an alternation over [^\r\n]
+            for x in ast.walk(r_[1].node):
+                if isinstance(x, ast.Call) and prog.dotted(x.func) == "re.findall" and x.args:
+                    ptn = regex_literal(prog, x.args[0], r_[1])
+                    if ptn is not None and "\\n" in ptn and "[^\\r\\n]" in ptn and not any(t in ptn for t in ("\\f", "\\v", "\\x0c", "\\x0b", "\\x1c", "\\x85", "\\u2028", "\\s")):
+                        # every character is in some match: the two alternatives are `line with terminator` | `last line without`
+                        tokenizer_lines = ptn.count("|") >= 2 and ptn.endswith("+")
     advances = any(isinstance(c, ast.Call) and prog.dotted(c.func) == "len" and c.args and isinstance(c.args[0], ast.Name)
                    and isinstance(loop.target, ast.Name) and c.args[0].id == loop.target.id for c in ast.walk(loop))
-    res.decide(bool(keepends and advances), "R20.5", fn.loc(loop), fn.fq, "line offsets",
-               "iterates every line of the text with its terminator and advances the offset by len(line)" if keepends and advances else
-               "line offsets drift: the loop must iterate source.splitlines(keepends=True) and advance by len(line)")
+    res.decide(bool((splitlines_keepends or tokenizer_lines) and advances), "R20.5", fn.loc(loop), fn.fq, "line offsets",
+               "iterates every line of the text with its terminator and advances the offset by len(line)" if (splitlines_keepends or tokenizer_lines) and advances else
+               "line offsets drift: the loop must iterate the lines of the text with their terminators and advance by len(line)")
+    res.decide(tokenizer_lines, "R20.5", fn.loc(loop), fn.fq, "what a line is",
+               "lines as the tokenizer splits them (\\r\\n, \\r, \\n only)" if tokenizer_lines else
+               "str.splitlines also ends a 'line' at form feed, \\x1c-\\x1e, \\x85, \\u2028 and \\u2029, which can stand inside a string literal: the `# pyrefact: ignore` at the end of such a line "
+               "is attributed to the last piece only, and a rewrite of the first part of the line is applied")
     pa = PathAnalysis(prog, fn)
     # helpers that answer whether their argument matches a pattern (one level): get_directive(line) is not None
     searching_helpers = set()
@@ -704,6 +721,7 @@ def _whitespace_only(prog, fn, pa, node, bounds: set) -> bool:
 from ..selftest import Variant  # noqa: E402
 
 VARIANTS = [
+    Variant("ignore-lines-by-str-splitlines", "FIRE", "core", "    for line in split_lines(source):  # A form feed in a string does not end the line, or its comment", "    for line in source.splitlines(keepends=True):", "R20.5"),
     Variant("directive-lookup-in-a-helper", "SILENT", "core", 'def has_ignore_comment(source: str, rng: Range) -> bool:\n    pattern = re.compile(r"#\\s*pyrefact\\s*:\\s*(skip_file|ignore)")\n', '_DIRECTIVE = re.compile(r"#\\s*pyrefact\\s*:\\s*(skip_file|ignore)")\n\n\ndef get_directive(text: str):\n    found = _DIRECTIVE.search(text)\n    if found is None:\n        return None\n\n    return found.group(1)\n\n\ndef has_ignore_comment(source: str, rng: Range) -> bool:\n', extra=[("core", '        if rng & Range(line_start, line_end) and pattern.search(line):', '        if rng & Range(line_start, line_end) and get_directive(line) is not None:')]),
     Variant("skip-test-per-line-through-helper", "SILENT", "main", "    if re.search(r\"#\\s*pyrefact\\s*:\\s*skip_file\", source):",
             "    if any(_is_skip_line(line) for line in source.splitlines()):",
@@ -727,7 +745,7 @@ VARIANTS = [
     Variant("ignore-pattern-loses-ignore", "FIRE", "core",
             "r\"#\\s*pyrefact\\s*:\\s*(skip_file|ignore)\"", "r\"#\\s*pyrefact\\s*:\\s*(skip_file)\"", "R20.5"),
     Variant("line-offsets-without-terminators", "FIRE", "core",
-            "    for line in source.splitlines(keepends=True):\n        line_start = character_count",
+            "    for line in split_lines(source):  # A form feed in a string does not end the line, or its comment\n        line_start = character_count",
             "    for line in source.splitlines():\n        line_start = character_count", "R20.5"),
     Variant("ignore-answer-unconditional-on-overlap", "FIRE", "core",
             "        if rng & Range(line_start, line_end) and pattern.search(line):", "        if pattern.search(line):", "R20.5"),
